@@ -82,8 +82,9 @@ RECURSIVE RefDefault(_)
 RefDefault(s) ==
   IF s.dflt # VMissing THEN s.dflt
   ELSE IF s.non THEN VNone
-  ELSE IF s.t = "Dict" /\ s.fields # <<>> /\ \A j \in 1..Len(s.fields) : RefDefault(s.fields[j][2]) # VMissing
-       THEN DictV([j \in 1..Len(s.fields) |-> <<s.fields[j][1], RefDefault(s.fields[j][2])>>])
+  ELSE IF s.t = "Dict" /\ s.fields # <<>> /\ \A j \in 1..Len(s.fields) : s.fields[j][1] > 0 => RefDefault(s.fields[j][2]) # VMissing
+       THEN LET ks == SetToSortSeq({k \in {s.fields[j][1] : j \in 1..Len(s.fields)} : k > 0}, LAMBDA x, y : x < y)     \* constant keys only
+            IN DictV([n \in 1..Len(ks) |-> <<ks[n], RefDefault(s.fields[CHOOSE j \in 1..Len(s.fields) : s.fields[j][1] = ks[n]][2])>>])
   ELSE VMissing
 HasDefault(s) == RefDefault(s) # VMissing
 
